@@ -248,6 +248,20 @@ func main() {
 	addBool("compaction_takes_tables_without_live_entries", deadTables,
 		"isCompactionOK answers true for a table with Inuse == 0 and Garbage > 0, and otherwise compares Garbage with Allocated*maxGarbageRatio")
 	addBool("compaction_skips_readwrite", strings.Contains(src(comp), "ReadWriteState"), "Compaction mentions table.ReadWriteState (skips the head table)")
+	// a table that arrives over the network is checked before it is built
+	packGo := parse("internal/kvstore/table/pack.go")
+	packOK := false
+	for _, d := range packGo.Decls {
+		fd, ok := d.(*ast.FuncDecl)
+		if !ok || fd.Name.Name != "Decode" {
+			continue
+		}
+		pv := funcDecl(packGo, "Pack", "validate")
+		packOK = pv != nil && orderedIn(src(fd), "msgpack.Unmarshal(data, p)", "p.validate()", "return nil, err", "New(p.Allocated)") &&
+			orderedIn(src(pv), "p.Offset > p.Allocated", "uint64(len(p.Memory)) != p.Offset", "return ErrMalformedPack", "for _, offset := range p.HKeys", "offset >= p.Offset",
+				"end+4 > p.Offset", "binary.BigEndian.Uint32(p.Memory[end:end+4])", "end > p.Offset", "return nil")
+	}
+	addBool("table_pack_is_checked_before_a_table_is_built", packOK, "table.Decode validates sizes and every indexed entry of a received pack before it allocates and fills a table")
 	sweepDeletes := false
 	if comp != nil {
 		ast.Inspect(comp.Body, func(n ast.Node) bool {
@@ -716,4 +730,17 @@ func main() {
 	for _, f := range facts {
 		fmt.Printf("%s=%s\n", f.name, f.val)
 	}
+}
+
+// orderedIn: the parts occur in t in this order
+func orderedIn(t string, parts ...string) bool {
+	i := 0
+	for _, p := range parts {
+		j := strings.Index(t[i:], p)
+		if j < 0 {
+			return false
+		}
+		i += j + len(p)
+	}
+	return true
 }
